@@ -4,6 +4,7 @@
 mod c03;
 mod c04;
 mod c05;
+mod c06;
 mod history;
 mod hooks;
 mod store;
@@ -21,6 +22,7 @@ fn main() {
         "C03" => c03::run(&args, &mut rep),
         "C04" => c04::run(&args, &mut rep),
         "C05" => c05::run(&args, &mut rep),
+        "C06" => c06::run(&args, &mut rep),
         p => rep.inconclusive(format!("vp-store does not serve {p}")),
     }
     if hooks::pause_timeouts() > 0 {
